@@ -9,11 +9,13 @@
    transitions (rollback); (4) what a transition exits and what it enters is confined to the transition domain.
    REFUTED as a universal invariant of the code at HEAD: a transition targeting the machine root (finding F5) exits
    everything and enters nothing - kernel-checked witness below.
-   (1b) the configuration built by the initial entry is legal for every well-formed machine (C01_initial_configuration_legal);
-   PARTIAL: that exit_set + entry path + default descent re-establish legality for every OTHER target shape is
-   decided by the correspondence (legal is evaluated inside Coq on every generated run: exhaustive small trees x all
-   source/target pairs, plus random machines) and by the monitor on the implementation, not by an inductive proof. *)
-From XSM Require Import Model.Macro Model.Snap Proofs.LegalP Proofs.ExecP Proofs.FaultP Proofs.StepP Proofs.DescentP.
+   (1b) THE INVARIANT ITSELF, by induction over runs: C01_sync_runs_stay_legal / C01_async_runs_stay_legal - built from
+   C01_initial_configuration_legal (default descent), C01_transition_effect (closed formula for one transition),
+   C01_transition_preserves_legality (replacement lemma over the state tree) and C01_event_preserves_legality;
+   PARTIAL: transitions that target a HISTORY pseudo-state are outside the invariant theorems (their preservation is
+   decided by the correspondence: legality is evaluated inside Coq on every generated run), and transitions that
+   target the machine root break the invariant at HEAD (finding F5, kernel-checked witness below). *)
+From XSM Require Import Model.Macro Model.Snap Proofs.LegalP Proofs.ExecP Proofs.FaultP Proofs.StepP Proofs.DescentP Proofs.EffectP Proofs.PreserveP Proofs.InvariantP Proofs.SelectP.
 From Coq Require Import Permutation.
 
 Theorem C01_legal_is_the_definition : forall m C, legal m C = true <-> Legal m C.
@@ -53,6 +55,51 @@ Print Assumptions C01_entry_is_default_descent.
 Theorem C01_default_descent_legal : forall m, wf m = true -> good_initials m = true -> forall f, size m < f -> Legal m (descent f m 0).
 Proof. exact descent_legal. Qed.
 Print Assumptions C01_default_descent_legal.
+
+(* THE INVARIANT.  For every well-formed machine whose compound states declare a non-history initial child and none of
+   whose transitions targets the machine root or a history pseudo-state (four decidable conditions: wf, twf,
+   good_initials, safe_targetsb), if start() does not fail then after ANY sequence of events the configuration is
+   legal - on the sync engine and on the async engine (observed whenever its queue is drained). *)
+Theorem C01_sync_runs_stay_legal : forall m, wf m = true -> twf m = true -> good_initials m = true -> safe_targets m ->
+  forall cx evs, snd (sync_start m (st_init cx)) = None -> Legal m (s_cfg (sync_run m cx evs)).
+Proof. exact sync_run_inv. Qed.
+Print Assumptions C01_sync_runs_stay_legal.
+
+Theorem C01_async_runs_stay_legal : forall m, wf m = true -> twf m = true -> good_initials m = true -> safe_targets m ->
+  forall fuel cx evs, snd (async_start m (st_init cx)) = None -> Legal m (s_cfg (fst (async_run fuel m cx evs))).
+Proof. exact async_run_inv. Qed.
+Print Assumptions C01_async_runs_stay_legal.
+
+Theorem C01_safe_targets_checkable : forall m, safe_targetsb m = true -> safe_targets m.
+Proof. exact safe_targetsb_ok. Qed.
+Print Assumptions C01_safe_targets_checkable.
+
+(* the steps the invariant is built from: one event on either engine (also when it fails half-way: rollback) ... *)
+Theorem C01_event_preserves_legality : forall m, wf m = true -> twf m = true -> good_initials m = true -> safe_targets m ->
+  forall eng pr ev s, Legal m (s_cfg s) -> Legal m (s_cfg (fst (process_event eng pr m ev s))).
+Proof. exact process_event_inv. Qed.
+Print Assumptions C01_event_preserves_legality.
+
+(* ... one external transition from an active source to a target that is neither the root nor a history state
+   (this is also the state every on_transition hook and subscriber observes) ... *)
+Theorem C01_transition_preserves_legality : forall m, wf m = true -> good_initials m = true ->
+  forall eng pr t tgt ev s0 s1,
+  Legal m (s_cfg s0) -> In (t_src t) (s_cfg s0) -> tgt < size m -> tgt <> 0 -> is_history m tgt = false ->
+  exec_external eng pr m t tgt ev s0 = (s1, None) -> Legal m (s_cfg s1).
+Proof. exact transition_preserves_legal. Qed.
+Print Assumptions C01_transition_preserves_legality.
+
+(* ... whose effect on the configuration is a closed formula: minus the exit list, plus the entered set *)
+Theorem C01_transition_effect : forall m eng pr t tgt ev s0 s1,
+  exec_external eng pr m t tgt ev s0 = (s1, None) ->
+  let d := find_domain m (t_src t) tgt in
+  let xs := rev (sort_by (lt_depth_id m) (exit_set m (s_cfg s0) d tgt)) in
+  let hist := is_history m tgt in
+  let path := if hist then [] else path_to m tgt d in
+  let cp := if hist then combined_path m d (resolve_history m (s_hist s0) tgt) else [] in
+  s_cfg s1 = add_all (entered (S (size m)) m cp) (add_all (entered (S (size m)) m path) (remove_all xs (s_cfg s0))).
+Proof. exact external_effect. Qed.
+Print Assumptions C01_transition_effect.
 
 (* steps that keep the configuration *)
 Theorem C01_unhandled_keeps : forall eng pr m ev s,
@@ -108,7 +155,7 @@ Definition ex_m : machine := Build_machine
     Build_node "m.p.h" (Some 1) (KHistory true) [] None 2 [] [] [] None [] [] None None;
     n_ "m.o" (Some 0) KAtomic [] None 1 [] ] 10 None.
 Example C01_ex :
-  wf ex_m = true /\ good_initials ex_m = true /\ descent 10 ex_m 0 = [0; 1; 2; 3; 5; 6] /\
+  wf ex_m = true /\ twf ex_m = true /\ safe_targetsb ex_m = true /\ good_initials ex_m = true /\ descent 10 ex_m 0 = [0; 1; 2; 3; 5; 6] /\
   s_cfg (fst (enter Sync true ex_m [0] None (st_init []))) = [0; 1; 2; 3; 5; 6] /\
   legal ex_m [0; 1; 2; 4; 5; 6] = true /\ legal ex_m [6; 5; 4; 2; 1; 0] = true
   /\ legal ex_m [0; 1; 2; 3; 4; 5; 6] = false      (* two active children of a compound state *)
